@@ -29,22 +29,24 @@ type Expect struct {
 	Full    bool `json:"full,omitempty"`    // terminal consumes everything
 	HasFail bool `json:"hasfail,omitempty"` // some element may fail
 	// C08
-	Drop     bool   `json:"drop,omitempty"`
-	Need     int    `json:"need,omitempty"` // index of the last source element the consumer needs
-	Dec      int    `json:"dec,omitempty"`  // index of the decisive source element (without any read-ahead)
-	HasDec   bool   `json:"hasdec,omitempty"`
-	SparseAt int    `json:"sparseat,omitempty"` // an upstream accept passes only values <= SparseAt
-	Need2    int    `json:"need2,omitempty"`    // same for the lazy second operand of cross/merge/+ (probe stage 15); -1 = none at all
-	Has2     bool   `json:"has2,omitempty"`
-	Merge    bool   `json:"merge,omitempty"`  // the pipeline contains merge: its channel producers keep iterating after an early stop (known)
-	S        int    `json:"s,omitempty"`      // lazy stages + 1
-	ParSt    int    `json:"parst,omitempty"`  // stages that may go parallel
-	FailAt   int    `json:"failat,omitempty"` // source index of the failing element + 1 (0 = none)
-	Fair     bool   `json:"fair,omitempty"`   // uniform costs, no stalls, no PCT
-	Huge     bool   `json:"huge,omitempty"`   // source >= 1e9 elements
-	Term     string `json:"term,omitempty"`
-	Reuse    bool   `json:"reuse,omitempty"` // the list is consumed completely once before the short-circuit consumer sees it
-	N        int    `json:"n,omitempty"`     // its length
+	Drop      bool   `json:"drop,omitempty"`
+	Need      int    `json:"need,omitempty"` // index of the last source element the consumer needs
+	Dec       int    `json:"dec,omitempty"`  // index of the decisive source element (without any read-ahead)
+	HasDec    bool   `json:"hasdec,omitempty"`
+	SparseAt  int    `json:"sparseat,omitempty"` // an upstream accept passes only values <= SparseAt
+	Need2     int    `json:"need2,omitempty"`    // same for the lazy second operand of cross/merge/+ (probe stage 15); -1 = none at all
+	Has2      bool   `json:"has2,omitempty"`
+	Merge     bool   `json:"merge,omitempty"`  // the pipeline contains merge: its channel producers keep iterating after an early stop (known)
+	S         int    `json:"s,omitempty"`      // lazy stages + 1
+	ParSt     int    `json:"parst,omitempty"`  // stages that may go parallel
+	FailAt    int    `json:"failat,omitempty"` // source index of the failing element + 1 (0 = none)
+	Fair      bool   `json:"fair,omitempty"`   // uniform costs, no stalls, no PCT
+	Huge      bool   `json:"huge,omitempty"`   // source >= 1e9 elements
+	Term      string `json:"term,omitempty"`
+	TermProbe int    `json:"termprobe,omitempty"` // stage id of the probe inside the consumer's own closure (0 = none)
+	TermK     int    `json:"termk,omitempty"`     // the value at which that consumer decides
+	Reuse     bool   `json:"reuse,omitempty"`     // the list is consumed completely once before the short-circuit consumer sees it
+	N         int    `json:"n,omitempty"`         // its length
 }
 
 type Case struct {
@@ -691,6 +693,17 @@ func execC08(c *Case, sc *Script, o *Obs) {
 				o.add(name, "C08:demand:parallel-fair:"+x.Term, d)
 			} else {
 				o.add(name, "C08:demand:sequential:"+x.Term, d)
+			}
+		}
+		if x.TermProbe > 0 && !x.Reuse {
+			maxT := int64(-1)
+			for i := 0; i < h.nProbe; i++ {
+				if int(h.probeS[i]) == x.TermProbe && h.probeX[i] > maxT {
+					maxT = h.probeX[i]
+				}
+			}
+			if maxT > int64(x.TermK) {
+				o.add(name, "C08:demand:consumer-closure:"+x.Term, fmt.Sprintf("the closure of %s itself was evaluated for the element with value %d; it decides at value %d and must not look further (mode %s)", x.Term, maxT, x.TermK, mode))
 			}
 		}
 		if x.Has2 {
